@@ -56,7 +56,7 @@ NAMED_UNDER = {"ZeroT": "struct", "ZeroP": "struct", "FoldT": "struct", "FoldObj
 
 # types with user-defined unfolders (harness/gotype_user.go, SFGoType!ExpUser): field kinds of their struct
 USER_UNFOLD = {"UStr": ["string"], "UI64": ["int64"], "UPt": ["int64", "int64"], "UExp": ["int64", "int64"],
-               "UObj": ["string", "int64"], "UProc": ["int64", "int64"], "USelf": ["int64"], "UKeys": None}
+               "UObj": ["string", "int64"], "UProc": ["int64", "int64"], "USelf": ["int64"], "UKeys": None, "UNest": None}
 
 
 def user_stream(tid, rnd):
@@ -84,6 +84,15 @@ def user_stream(tid, rnd):
             out.append(streams.ev("key", rnd.choice(["key", "keyref", "keyref"]), list(rnd.choice([b"a", b"b", b"c", b"dd", b"ee", b"", b"long-name-%d" % j]))))
             out += [rnd.choice([streams.ev("nil", "nil"), streams.ev("bool", "bool", [1]), i64(), streams.ev("str", "strref", list(b"v%d" % j))])]
         return out + [streams.ev("objE", "objE")]
+    if tid == "UNest":
+        def nest(d):
+            kids = [] if d == 0 else [nest(d - 1) for _ in range(rnd.randrange(1, 3))]
+            out = [streams.ev("objS", "objS", (), rnd.choice([2, -1]), "any"), streams.ev("key", rnd.choice(["key", "keyref"]), list(b"n")), i64(),
+                   streams.ev("key", rnd.choice(["key", "keyref"]), list(b"kids")), streams.ev("arrS", "arrS", (), rnd.choice([len(kids), -1]), "any")]
+            for kd in kids:
+                out += kd
+            return out + [streams.ev("arrE", "arrE"), streams.ev("objE", "objE")]
+        return nest(rnd.randrange(0, 4))
     if tid == "USelf":
         return [streams.ev("objS", "objS", (), rnd.choice([1, -1]), "any"), streams.ev("key", rnd.choice(["key", "keyref"]), list(b"n")),
                 streams.ev("int", rnd.choice(["int8", "uint8", "int64", "int"]), streams.canon(rnd.randrange(25))), streams.ev("objE", "objE")]
@@ -116,6 +125,9 @@ def zero_vd(T):
         base["e"] = [zero_vd(T["e"][0]) for _ in range(T["n"])]
     elif k == "struct":
         base["f"] = [zero_vd(f["t"]) for f in T["f"]]
+    elif k == "named" and T["id"] == "UNest":
+        base["k"] = "struct"
+        base["f"] = [zero_vd(dict(k="int64")), zero_vd(dict(k="slice", e=[T]))]
     elif k == "named" and T["id"] == "UKeys":
         base["k"] = "struct"
         base["f"] = [zero_vd(dict(k="slice", e=[dict(k="string")]))]
